@@ -162,9 +162,15 @@ func Run(c *gen.Ctx) error {
 
 // RunWith is shared with C04 (singleFaults: enumerate every single fault point of every operation).
 func RunWith(c *gen.Ctx, prop string, cfgs []xeng.Config, nops, perOp int, singleFaults bool) error {
+	return RunFull(c, prop, cfgs, nops, perOp, singleFaults, false)
+}
+
+// RunFull: schedules = also run every plan under adversarial resolver delay plans (C06).
+func RunFull(c *gen.Ctx, prop string, cfgs []xeng.Config, nops, perOp int, singleFaults, schedules bool) error {
 	r := gen.NewRand(c.Seed)
 	meta := &gen.Meta{Property: prop}
-	probes, err := xeng.BuildProbes(xeng.ProbeSchema, cfgs, nil)
+	// thorough tier of the scheduling property: probes carry the race detector
+	probes, err := xeng.BuildProbesRace(xeng.ProbeSchema, cfgs, nil, schedules && c.Thorough())
 	if err != nil {
 		return err
 	}
@@ -280,8 +286,43 @@ func RunWith(c *gen.Ctx, prop string, cfgs []xeng.Config, nops, perOp int, singl
 	// ---- execute the plan on every configuration -------------------------------------------------------
 	cf := &gen.CaseFile{Dir: c.OutDir, Prop: prop, Kind: "exec", Requires: []string{"Base.Prelude", "Model.Exec", "Corr.Corr_C01"}, Type: "exec_case",
 		Checks: []gen.Check{{Label: "corr", Fn: "exec_corr"}, {Label: "mon", Fn: "exec_monitor"}, {Label: "montn", Fn: "exec_monitor_tn"},
-			{Label: "c04", Fn: "c04_monitor"}}, Shard: 60}
+			{Label: "c04", Fn: "c04_monitor"}, {Label: "c06", Fn: "c06_monitor"}}, Shard: 60}
 	cf.Preamble = "Definition sch : schema := " + xeng.SchemaCoq(xeng.Schema) + "."
+	if schedules {
+		// the same plans again under schedules induced by resolver delays: random, reversed completion
+		// order, one straggler (positions from round 2's log of the operation)
+		rs := r.Fork(3)
+		base := plan
+		for _, p := range base {
+			log := res2[p.op].Log
+			if len(log) < 2 {
+				continue
+			}
+			for variant := 0; variant < 3; variant++ {
+				o := p.orc.Clone()
+				for i, l := range log {
+					if l[0] != "r" {
+						continue
+					}
+					fp := o.Fields[l[1]]
+					switch variant {
+					case 0:
+						fp.Delay = rs.Intn(6)
+					case 1:
+						fp.Delay = (len(log) - i) % 7
+					default:
+						if i == 0 {
+							fp.Delay = 8
+						}
+					}
+					if fp.Delay > 0 || fp.O != "" {
+						o.Fields[l[1]] = fp
+					}
+				}
+				plan = append(plan, planned{p.op, o})
+			}
+		}
+	}
 	var cases []xeng.Case
 	for i, p := range plan {
 		cases = append(cases, xeng.Case{ID: i, Query: ops[p.op].query, Variables: ops[p.op].raw, Oracle: p.orc})
@@ -321,8 +362,12 @@ func RunWith(c *gen.Ctx, prop string, cfgs []xeng.Config, nops, perOp int, singl
 			if op.op.Operation == ast.Mutation {
 				root = "Mutation"
 			}
-			term := fmt.Sprintf("{| xc_schema := sch; xc_root := %s; xc_sels := %s; xc_oracle := %s; xc_data := %s; xc_errors := %s; xc_log := %s; xc_recovers := %d%%nat |}",
-				gen.Str(root), selTerms[p.op], p.orc.Coq(), first.DataTerm(), first.ErrorsTerm(), xeng.LogCoq(res.Log), res.Recovers)
+			orderTerm := "[]"
+			if root == "Mutation" {
+				orderTerm = xeng.OrderCoq(res.Order)
+			}
+			term := fmt.Sprintf("{| xc_schema := sch; xc_root := %s; xc_sels := %s; xc_oracle := %s; xc_data := %s; xc_errors := %s; xc_log := %s; xc_recovers := %d%%nat; xc_order := %s |}",
+				gen.Str(root), selTerms[p.op], p.orc.Coq(), first.DataTerm(), first.ErrorsTerm(), xeng.LogCoq(res.Log), res.Recovers, orderTerm)
 			if seen[term] {
 				continue // this configuration behaves exactly like an earlier one on this case
 			}
@@ -364,6 +409,9 @@ func RunWith(c *gen.Ctx, prop string, cfgs []xeng.Config, nops, perOp int, singl
 	}
 	if err := meta.AddCaseFile(cf, descr); err != nil {
 		return err
+	}
+	for _, rep := range xeng.Races {
+		meta.Direct = append(meta.Direct, gen.DirectFinding{Signature: "data-race-reported", What: "the Go race detector reported a data race in the generated executor / runtime", Replay: map[string]any{"report": rep}})
 	}
 	meta.Evaluations = len(plan) * len(probes)
 	meta.Programs = len(probes)
